@@ -8,6 +8,11 @@ import sys; sys.path.insert(0,'/verif')
 from vp_lib.mirror import build_mirror
 b=build_mirror(repo='${VP_REPO:-/repo}', out_path='$D/mirror.rs')
 if b.problems: print('PROBLEMS', b.problems)
+import os
+if not os.environ.get('VP_KEEP_KF'):
+    s=open('$D/mirror.rs').read().split('\n')
+    s=[l.replace('assert(','assume(',1) if '/* KF:' in l else l for l in s]
+    open('$D/mirror.rs','w').write('\n'.join(s))
 PY
 cd $D
 verus mirror.rs --multiple-errors 10 --num-threads 16 "$@" 2>&1 | grep -vE '^\s*$' | grep -E -A7 "^(error|warning: unused|note: (while|recom))|verification results" | grep -vE "^\s+\|$" | head -${VP_HEAD:-150}
